@@ -414,4 +414,153 @@ theorem b2_unsolicited_run (P : B2Par) (hP : B2ParOK P) : ∀ (evs : List B2Even
     · exact hstep.2 o h
     · exact Or.inr h
 
+/-! ## Block2, per-block mode: the ghost `seen` = the block numbers handed to the handler since the lg_crcv was last
+(re-)initialised (`seenAfter`, Lemmas/BlockCrcv.lean), threaded through the composed system -/
+
+/-- one step of `tilesOnce_run`, with the ghost's characterisation afterwards -/
+theorem tiles_step (cap : Nat) (junk : UInt8) (body : Bytes) (sz : Option Nat) (hsz : ∀ t, sz = some t → t ≤ body.length)
+    (st : Option Crcv) (seen : List Nat) (r : Resp) (num szx : Nat)
+    (hst : ∀ s, st = some s → s.initial = false → CrcvInv false cap body sz s)
+    (hG : ∀ k, k ∈ seen ↔ Covers (effRecv st) k) (hg : Genuine2 body sz st r num szx) :
+    (∀ off p t nx, (crcvStep false cap junk st r).2 = CrcvOut.block off p t nx → numOf r ∉ seen) ∧
+    (∀ off p t, (crcvStep false cap junk st r).2 = CrcvOut.last off p t →
+      numOf r ∉ seen ∧ ∀ k, k < nBlocks body.length (szxOfR r) → k = numOf r ∨ k ∈ seen) ∧
+    (∀ k, k ∈ seenAfter (crcvStep false cap junk st r).1 seen (numOf r) (crcvStep false cap junk st r).2 ↔
+      Covers (effRecv (crcvStep false cap junk st r).1) k) := by
+  have hnum : numOf r = num := by unfold numOf; rw [hg.1]
+  have hszx : szxOfR r = szx := by unfold szxOfR; rw [hg.1]
+  obtain ⟨hpn, hpw⟩ := crcvStep_perblock cap junk st r
+  rw [hnum, hszx]
+  generalize hres : crcvStep false cap junk st r = res at hpn hpw ⊢
+  obtain ⟨st', out⟩ := res
+  have hspec := crcvStep_spec false cap junk body sz st r num szx st' out hsz hst hg hres
+  dsimp only at hpn hpw ⊢
+  refine ⟨?_, ?_, ?_⟩
+  · intro off p t nx hb hmem
+    exact (hspec.dBlock off p t nx hb).2.2.2.1 ((hG num).mp hmem)
+  · intro off p t hb
+    refine ⟨fun hmem => (hspec.dLast off p t hb).2.2.2.1 ((hG num).mp hmem), ?_⟩
+    intro k hk
+    rcases hspec.complete (by rw [hb]; rfl) k hk with h | h
+    · exact Or.inl h
+    · exact Or.inr ((hG k).mpr h)
+  · intro k
+    unfold seenAfter effRecv
+    cases st' with
+    | none => simp [covers_nil]
+    | some s' =>
+      simp only
+      cases hi : s'.initial with
+      | true => simp [covers_nil]
+      | false =>
+        simp only [Bool.false_eq_true, if_false]
+        have hgrow := hspec.grow s' rfl hi k
+        rw [hgrow]
+        cases out with
+        | block off p t nx =>
+          simp only [List.mem_cons]
+          constructor
+          · intro h
+            rcases h with h | h
+            · exact Or.inr ⟨h, Or.inr (Or.inr ⟨off, p, t, nx, rfl⟩)⟩
+            · exact Or.inl ((hG k).mp h)
+          · intro h
+            rcases h with h | ⟨h, _⟩
+            · exact Or.inr ((hG k).mpr h)
+            · exact Or.inl h
+        | next n s => exact (hpn n s rfl).elim
+        | wait => exact (hpw rfl).elim
+        | _ =>
+          simp only
+          constructor
+          · intro h; exact Or.inl ((hG k).mp h)
+          · intro h
+            rcases h with h | ⟨_, h⟩
+            · exact (hG k).mpr h
+            · rcases h with h | h | ⟨_, _, _, _, h⟩ <;> cases h
+
+/-- every response in flight is genuine for the lg_crcv it meets (what `cliOnRsp_inv` derives from `B2Inv`) -/
+theorem b2_genuine (P : B2Par) (s : B2Sys) (r : Resp) (hr : r ∈ s.rsps) (hinv : B2Inv P s) :
+    ∃ num szx, Genuine2 P.body (some P.body.length) s.cli r num szx := by
+  obtain ⟨num, szx, k, g1, g2, g3, g4, g5, g6, g7⟩ := hinv.rsp r hr
+  have hszr : szxOf r = szx := by unfold szxOf; rw [g1]
+  refine ⟨num, szx, g1, g2, g3, g4, ?_⟩
+  intro c hc hi hp
+  obtain ⟨_, _, r', hr', e1, e2⟩ := hinv.cli c hc hi
+  have he : P.etagOf k = c.etag := hp.1 _ g5
+  have := hinv.func r r' hr hr' (by rw [g5, e1, he])
+  rw [hszr, e2] at this
+  exact this.symm
+
+def b2Seen (P : B2Par) (s : B2Sys) (seen : List Nat) (e : B2Event) : List Nat :=
+  match e with
+  | .rspArrives j sent =>
+    (match s.rsps[j]? with
+     | some r => seenAfter (crcvStepS sent P.single P.cap P.junk s.cli r).1 seen (numOf r)
+                   (crcvStepS sent P.single P.cap P.junk s.cli r).2
+     | none => seen)
+  | .cliExpire => []
+  | .cliNew => []
+  | _ => seen
+
+def b2StepS (P : B2Par) (ss : B2Sys × List Nat) (e : B2Event) : B2Sys × List Nat :=
+  (b2Step P ss.1 e, b2Seen P ss.1 ss.2 e)
+
+/-- the ghost is exactly the set of blocks the lg_crcv has recorded in its current lifetime -/
+def B2SeenInv (ss : B2Sys × List Nat) : Prop := ∀ k, k ∈ ss.2 ↔ Covers (effRecv ss.1.cli) k
+
+theorem b2StepS_inv (P : B2Par) (hs : P.single = false) (ss : B2Sys × List Nat) (e : B2Event) (hinv : B2Inv P ss.1)
+    (hG : B2SeenInv ss) : B2SeenInv (b2StepS P ss e) := by
+  obtain ⟨s, seen⟩ := ss
+  cases e with
+  | appGet szx => exact hG
+  | srvExpire => exact hG
+  | cliExpire => intro k; simp [b2StepS, b2Seen, b2Step, effRecv, covers_nil]
+  | cliNew => intro k; simp [b2StepS, b2Seen, b2Step, effRecv, covers_nil]
+  | reqArrives i =>
+    intro k
+    show k ∈ seen ↔ Covers (effRecv (b2Step P s (B2Event.reqArrives i)).cli) k
+    have h1 : (b2Step P s (B2Event.reqArrives i)).cli = s.cli := by
+      simp only [b2Step]
+      split
+      · exact (srvOnReq_cli P s _ _).1
+      · rfl
+    rw [h1]
+    exact hG k
+  | rspArrives j sent =>
+    cases hq : s.rsps[j]? with
+    | none =>
+      intro k
+      show k ∈ b2Seen P s seen (B2Event.rspArrives j sent) ↔ Covers (effRecv (b2Step P s (B2Event.rspArrives j sent)).cli) k
+      simp only [b2Seen, b2Step, hq]
+      exact hG k
+    | some r =>
+      obtain ⟨e1, _⟩ := b2Step_rsp P s j sent r hq
+      intro k
+      show k ∈ b2Seen P s seen (B2Event.rspArrives j sent) ↔ Covers (effRecv (b2Step P s (B2Event.rspArrives j sent)).cli) k
+      rw [e1]
+      simp only [b2Seen, hq]
+      rw [hs]
+      rcases crcvStepS_cases sent false P.cap P.junk s.cli r with he | ⟨_, _, he⟩
+      · rw [he]
+        obtain ⟨num, szx, hg⟩ := b2_genuine P s r (List.mem_of_getElem? hq) hinv
+        have hst : ∀ c, s.cli = some c → c.initial = false → CrcvInv false P.cap P.body (some P.body.length) c := by
+          intro c hc hi
+          have := (hinv.cli c hc hi).1
+          rw [hs] at this
+          exact this
+        exact (tiles_step P.cap P.junk P.body (some P.body.length) (by intro t ht; cases ht; exact Nat.le_refl _)
+          s.cli seen r num szx hst hG hg).2.2 k
+      · rw [he]
+        cases r.blk with
+        | none => simp [seenAfter, effRecv, covers_nil]
+        | some b => simp [seenAfter, effRecv, covers_nil]
+
+theorem b2RunS_inv (P : B2Par) (hP : B2ParOK P) (hs : P.single = false) :
+    ∀ (evs : List B2Event) (ss : B2Sys × List Nat), B2Inv P ss.1 → B2SeenInv ss →
+      B2Inv P (evs.foldl (b2StepS P) ss).1 ∧ B2SeenInv (evs.foldl (b2StepS P) ss)
+  | [], _, h1, h2 => ⟨h1, h2⟩
+  | e :: evs, ss, h1, h2 =>
+    b2RunS_inv P hP hs evs (b2StepS P ss e) (b2Step_inv P hP ss.1 e h1) (b2StepS_inv P hs ss e h1 h2)
+
 end Coap.Block
